@@ -984,6 +984,19 @@ func (e *Exec) arith(st *State, op token.Token, l, r Term, t types.Type, rt type
 				return Mod(r, pow2(k))
 			}
 		}
+		// x & (2^w - 2^k) on an unsigned w-bit value clears the low k bits
+		if w := unsignedWidth(t); w > 0 && w < 64 {
+			if m, ok := litVal(r); ok {
+				if k, isHigh := highMaskBits(m, w); isHigh {
+					return Sub(l, Mod(l, pow2(k)))
+				}
+			}
+			if m, ok := litVal(l); ok {
+				if k, isHigh := highMaskBits(m, w); isHigh {
+					return Sub(r, Mod(r, pow2(k)))
+				}
+			}
+		}
 		e.needBitAxioms()
 		return mk(SInt, "uf_and", l, r)
 	case token.OR:
@@ -1009,6 +1022,40 @@ func (e *Exec) arith(st *State, op token.Token, l, r Term, t types.Type, rt type
 }
 
 func isNonNeg(v Term, e *Exec, t types.Type) bool { return true }
+
+// unsignedWidth: bit width of a sized unsigned integer type (0 otherwise).
+func unsignedWidth(t types.Type) uint {
+	if b, ok := types.Unalias(t).Underlying().(*types.Basic); ok {
+		switch b.Kind() {
+		case types.Uint8:
+			return 8
+		case types.Uint16:
+			return 16
+		case types.Uint32:
+			return 32
+		}
+	}
+	return 0
+}
+
+// highMaskBits: m == 2^w - 2^k with 0 < k < w.
+func highMaskBits(m int64, w uint) (uint, bool) {
+	if m <= 0 || m >= int64(1)<<w {
+		return 0, false
+	}
+	low := (int64(1) << w) - m // must be 2^k
+	if low&(low-1) != 0 {
+		return 0, false
+	}
+	k := uint(0)
+	for x := low; x > 1; x >>= 1 {
+		k++
+	}
+	if k == 0 {
+		return 0, false
+	}
+	return k, true
+}
 
 func maskBits(m int64) (uint, bool) {
 	if m <= 0 {
